@@ -8,22 +8,22 @@ VERIF = Path(__file__).resolve().parent.parent
 
 # id -> (design section, technique, level text, level note)
 P = {
-    "C01": ("2/C01", "runtime monitor: event-log datasets + independent reference oracle over generated stacks x modes x index forms",
+    "C01": ("2/C01", "runtime monitor: event-log datasets + independent reference oracle over generated stacks x modes x index forms (python / numpy integers, negatives, slices, lists, out-of-range probes, interleaved iterators)",
             "Every generated (stack, mode, index form, access history) is executed on the real ModeWrapper/TorchWrapper and compared position by position with an independent reference built from direct loader calls; loader event log checks ctx identity/freshness and joint loads. Held on the executions observed, not a proof.",
-            "harness datasets/wrappers subclass the public KDDataset/KDWrapper; out-of-range indices and duplicated fused members are not driven"),
+            "harness datasets/wrappers subclass the public KDDataset/KDWrapper; duplicated fused members are not driven"),
     "C02": ("2/C02", "runtime monitor: decodable leaf tokens + composed index-map model + leaf load log, on random nestings",
             "Random nestings (depth<=6) of subset/concat/wrapper layers are built from the real classes; every valid index (incl. negatives, balanced round-robin) must return the leaf token the composed index-map model names and cause exactly that one leaf load; bulk accessors are compared element-wise with per-sample ones; introspection is compared with the constructed chain. Exploration of sampled configurations.",
             "a remapping layer's own map is read from its public Subset.indices (what it selects is C03); introspection judged on linear chains only"),
-    "C03": ("2/C03", "runtime monitor: independent per-wrapper promise oracles over generated class layouts/bounds/seeds + global-RNG differential + logical step budget",
+    "C03": ("2/C03", "runtime monitor: independent per-wrapper promise oracles over generated class layouts/bounds/seeds/label dtypes + global-RNG differential + recomputation of seeded selections in a second interpreter (other hash salt) + logical step budget",
             "Each dataset-manipulation wrapper is constructed on generated label layouts (absent/singleton classes, boundary percents, seeds) and its exposed id sequence is compared with an independent statement of its documented promise; complementary ranges must partition; seeded constructions are repeated under different global RNG states; construction must finish inside a sys.monitoring step budget.",
             "promises are taken from README/docstrings/unit tests; exact oversampling with unlabeled samples and wrappers' own empty-dataset guards are outside the claim"),
-    "C04": ("2/C04", "runtime monitor: executable reference model of the interleaved schedule vs the real event stream, recording samplers",
+    "C04": ("2/C04", "runtime monitor: executable reference model of the interleaved schedule vs the real event stream, recording samplers (re-iteration, two live iterators, abandoned passes, configuration set through public attributes)",
             "The real InterleavedSampler stream, its batch sampler and the set_epoch calls received by a recording main sampler are compared event by event with a reference model written from the property text, over generated geometries/budgets/configs; over-long streams and spins are caught by stream-length cut and step budget.",
             "main samplers yield len(sampler) indices; exploration of sampled schedules"),
     "C05": ("2/C05", "runtime monitor: reference model of due side passes vs real stream + real DataLoader worker processes with dataset-tagged samples",
             "Side-pass segments between main updates must equal the reference model's (which config, whole, order, offsets, batching); real DataLoader runs (0..3 workers) check that every batch is from one dataset, collated by that dataset's collator and every index resolves to the sample it was drawn for.",
             "exploration; worker scheduling is whatever the OS produces in the observed runs"),
-    "C06": ("2/C06", "runtime monitor: differential of two real executions (uninterrupted vs resumed) with recording samplers",
+    "C06": ("2/C06", "runtime monitor: differential of two real executions (uninterrupted vs resumed) with recording samplers, also over shared config objects and re-iterated; equivalence of the three checkpoint forms beyond float precision",
             "For every epoch boundary before the budget the resumed stream (start_epoch / start_update / start_sample) must equal the suffix of the uninterrupted stream event for event, including announced epochs and stopping point; NotImplementedError is an accepted refusal.",
             "exploration over generated configurations; checkpoints on epoch boundaries only"),
     "C07": ("2/C07", "runtime monitor: differential executions of independently constructed instances under perturbed global RNG + global-RNG state sentinels + generator census",
@@ -62,12 +62,12 @@ P = {
     "C18": ("2/C18", "runtime monitor: logging harness collators inside the real pipeline vs default-collation reference",
             "Generated modes, ctx flags, collator member orders and batches go through the real KDSingleCollator/KDComposeCollator/PadSequencesCollator; the result must equal the reference (default collation exactly once at the requested position, same layout, (batch, ctx) iff configured, ctx keys = union) and member logs must show raw-before / collated-after; padded fields must equal pad_sequence of the originals.",
             "member orders the pipeline asserts against are accepted refusals"),
-    "C19": ("2/C19", "runtime monitor: client-boundary histories (call/return stamps) from forked reader processes + load/transform logs, offline history checker",
+    "C19": ("2/C19", "runtime monitor: client-boundary histories (call/return stamps) from forked reader processes + load/transform logs, offline history checker; sequential histories with second handles (copy / pickle), clears from other processes, negative and numpy indices, reassigned transform",
             "Sequential histories and concurrent histories from 2..12 forked readers sharing one SharedDictDataset (with injected delays inside the base loader and clears at random points) are checked offline: every read equals transform(base[i]), transform applied exactly once per access, loads at most once between clears sequentially, concurrent redundant loads only where no completed access could have populated the cache.",
             "monotonic system-wide clock orders events across processes; Manager server is part of the trusted base"),
-    "C20": ("2/C20", "fault enumeration: audit-hook crash injector killing the process before every file-system operation, plus strace syscall-level kills; directory-tree oracle",
+    "C20": ("2/C20", "fault enumeration: audit-hook fault injector killing the process before every file-system operation (single deaths enumerated, chains sampled), injected I/O errors and file-size limits, plus strace syscall-level kills; directory-tree oracle",
             "For every source format the complete set of Python-level file-system operations of a copy is enumerated; for each k the process is SIGKILLed before operation k, recovery calls follow (chains of deaths sampled / enumerated), and the destination tree, markers, mutation trace and result object are checked against the property; exhaustive for single deaths at audit-event granularity.",
-            "process death only (page cache survives); source trees do not contain marker-named files"),
+            "process death, I/O errors of single operations and write-size limits (page cache survives a death); source trees do not contain marker-named files"),
 }
 
 NOT_BUILT_REASON = "check not built yet in this round (planned, see DESIGN.md section 2)"
